@@ -281,9 +281,28 @@ func newLogger() *zap.Logger {
 		EncodeTime: zapcore.RFC3339NanoTimeEncoder, EncodeDuration: zapcore.StringDurationEncoder,
 		EncodeCaller: zapcore.ShortCallerEncoder,
 	}
-	loud := zapcore.NewCore(zapcore.NewJSONEncoder(ec), zapcore.AddSync(os.Stderr), zap.NewAtomicLevelAt(zap.DPanicLevel))
+	// fatal messages may embed the whole event (70 KB): keep the entry short so
+	// that it stays inside the tail of stderr the parent classifies
+	loud := shortMsgCore{zapcore.NewCore(zapcore.NewJSONEncoder(ec), zapcore.AddSync(os.Stderr), zap.NewAtomicLevelAt(zap.DPanicLevel))}
 	quiet := zapcore.NewCore(zapcore.NewJSONEncoder(ec), zapcore.AddSync(io.Discard), zap.NewAtomicLevelAt(zap.DebugLevel))
 	return zap.New(zapcore.NewTee(loud, quiet), zap.AddCaller())
+}
+
+// shortMsgCore trims the message (and drops the fields) of what it writes.
+type shortMsgCore struct{ zapcore.Core }
+
+func (c shortMsgCore) With(f []zapcore.Field) zapcore.Core { return shortMsgCore{c.Core.With(f)} }
+func (c shortMsgCore) Check(e zapcore.Entry, ce *zapcore.CheckedEntry) *zapcore.CheckedEntry {
+	if c.Enabled(e.Level) {
+		return ce.AddCore(e, c)
+	}
+	return ce
+}
+func (c shortMsgCore) Write(e zapcore.Entry, f []zapcore.Field) error {
+	if len(e.Message) > 400 {
+		e.Message = e.Message[:400]
+	}
+	return c.Core.Write(e, nil)
 }
 
 // ---- k8s meta for the multiline action ----
